@@ -2898,11 +2898,24 @@ class Parameters:
         return Event(what=event.what, name=event.name, obj=event.obj, cls=event.cls,
                      old=event.old, new=event.new, type=event_type)
 
-    def _execute_watcher(self, watcher, events):
+    def _execute_watcher(self, watcher, events, ran=None):
         if watcher.mode == 'args':
             args, kwargs = events, {}
         else:
             args, kwargs = (), {event.name: event.new for event in events}
+
+        fn = watcher.fn
+        if ran is not None and getattr(fn, 'func', None) is _sync_caller and hasattr(fn, '_watcher_name'):
+            # A method that depends both on a value and on a Parameter
+            # attribute ('x', 'n:bounds') has one watcher per kind of
+            # dependency: within one batch it still runs only once
+            function = fn.keywords['function']
+            def once():
+                if not any(function == f for f in ran):
+                    ran.append(function)
+                    return function()
+            partial(fn.func, **dict(fn.keywords, function=once))(*args, **kwargs)
+            return
 
         if iscoroutinefunction(watcher.fn):
             if async_executor is None:
@@ -2946,6 +2959,7 @@ class Parameters:
             self_._events = []
             self_._state_watchers = []
 
+            ran = []  # the dependent methods run in this round
             try:
                 for watcher in sorted(watchers, key=lambda w: w.precedence):
                     events = [self_._update_event_type(watcher, event_dict[(name, watcher.what)],
@@ -2953,7 +2967,7 @@ class Parameters:
                               for name in watcher.parameter_names
                               if (name, watcher.what) in event_dict]
                     with _batch_call_watchers(self_.self_or_cls, enable=watcher.queued, run=False):
-                        self_._execute_watcher(watcher, events)
+                        self_._execute_watcher(watcher, events, ran)
             except BaseException:
                 # What queued watchers of this round have queued is still
                 # announced now, not at some later assignment
